@@ -362,32 +362,48 @@ def rule_when(ctx: Ctx):
     callers = g.callers(pbe)
     rep.floor("C08.when", "callers of parse_boolean_expr", len(callers), 1)
     for c, node, how in callers:
-        rep.check(c.qualname == "Listeners.build", "C08.when", c.loc(node), "expressions are parsed only while resolving listeners", c.key, norm_stmt(node))
+        ok_c = c.qualname == "Listeners.build" or (ctx.is_new(c) and g.only_reached_through(c, {"build"}, {"Listeners"})[0])
+        rep.check(ok_c, "C08.when", c.loc(node), "expressions are parsed only while resolving listeners", c.key, norm_stmt(node))
     roots = [ctx.fn("Event.__call__")] + [k.engine_fn(e, nm) for e in k.engines for nm in ("processing_loop", "_trigger", "_activate")]
     reach = g.reachable(roots)
     rep.check(pbe not in reach and ctx.fn("Listeners.build") not in reach, "C08.when", pbe.loc(),
               "no parsing is reachable from event processing (errors surface at instantiation, never when an event arrives)",
               pbe.key, "parse_boolean_expr reachable from the event path")
     build = ctx.fn("Listeners.build")
-    tries = [t for t in own_nodes(build.node) if isinstance(t, ast.Try)]
     ok = False
-    for t in tries:
-        if any(isinstance(c, ast.Call) and show(c.func) == "parse_boolean_expr" for st in t.body for c in ast.walk(st)):
-            for h in t.handlers:
-                if h.type is not None and "SyntaxError" in show(h.type):
-                    r = [x for x in h.body if isinstance(x, ast.Raise)]
-                    ok = bool(r) and "InvalidDefinition" in show(r[0].exc) and r[0].cause is not None
-    rep.check(ok, "C08.when", build.loc(), "a SyntaxError of the expression becomes InvalidDefinition", build.key, "no `except SyntaxError: raise InvalidDefinition`")
+    for p in ctx.paths(build, inline=None, exc_edges="try"):
+        evs = p.events
+        pc = next((e for e in p.calls() if show(e.term.func) == "parse_boolean_expr"), None)
+        if pc is None or p.kind != "raise":
+            continue
+        thrown = pc.idx + 1 < len(evs) and evs[pc.idx + 1].kind == "throw"
+        handled = [e for e in evs if e.kind == "handler" and e.idx > pc.idx and e.term is not None and "SyntaxError" in show(e.term)]
+        r = next((e for e in evs if e.kind == "raise" and e.idx > pc.idx and not e.x.get("reraise")), None)
+        if thrown and handled and r is not None and "InvalidDefinition" in xshow(r.term, evs) and r.x.get("cause"):
+            ok = True
+    rep.check(ok, "C08.when", build.loc(), "a SyntaxError of the expression becomes InvalidDefinition (chained to the original error)", build.key,
+              "no `except SyntaxError: raise InvalidDefinition(...) from err` around the parser call")
     # unknown names: recorded, nothing yielded, check() raises
+    from ..shapes import consistent_lengths
+
     tk = ctx.fn("Listeners._take_callback")
     rec = False
+    handler_param = tk.params[2] if len(tk.params) > 2 else "names_not_found_handler"
     for p in ctx.paths(tk, inline=None, exc_edges="none"):
-        hs = [e for e in p.calls() if show(e.term.func) == tk.params[2] if len(tk.params) > 2]
+        evs = p.events
+        hs = [e for e in p.calls() if show(e.term.func) == handler_param]
+        lst = next((f"$l{e.idx}" for e in evs if e.kind == "alloc" and isinstance(e.term, ast.List)), None)
+        n_it = len([e for e in evs if e.kind == "iter" and e.x.get("loop") == "for"])
+        want = [n_it] if n_it < 2 else [2, 3]
+        if lst is not None and not (set(consistent_lengths(p, lst)) & set(want)):
+            continue  # the length tests on this path contradict the number of providers found
         if hs:
             rec = True
-            zero = any(xshow(b.term, p.events).startswith("len(") and "== 0" in xshow(b.term, p.events) and b.x["taken"] for b in p.of("branch")) or \
-                any(e.kind == "exhaust" and e.x.get("k") == 0 for e in p.events)
-            rep.check(zero, "C08.when", tk.loc(), "a name no provider has is reported through the not-found handler", tk.key, "handler called on a path with providers")
+            rep.check(n_it == 0, "C08.when", tk.loc(), "a name no provider has is reported through the not-found handler (and only such a name)", tk.key,
+                      f"handler called on a path with {n_it} providers")
+        elif n_it == 0 and p.kind == "return":
+            rep.violation("C08.when", tk.loc(), "a name no provider has is silently accepted (not reported as missing)", tk.key,
+                          f"return {xshow(p.value, evs)} without calling the not-found handler")
     rep.check(rec, "C08.when", tk.loc(), "names without provider are recorded", tk.key, "names_not_found_handler never called")
     n_y = 0
     for p in ctx.paths(build, inline=None, exc_edges="none"):
